@@ -3,7 +3,11 @@ package wsim
 import (
 	"errors"
 	"fmt"
+	"runtime"
+	"sort"
+	"strings"
 	"sync"
+	"time"
 
 	"github.com/btcsuite/btcd/btcjson"
 	"github.com/btcsuite/btcd/btcutil"
@@ -34,13 +38,55 @@ type Backend struct {
 	// interruption); 0 = never.
 	FailHashAt int32
 
-	Sent        []*wire.MsgTx // every transaction offered through SendRawTransaction
+	Sent        []*wire.MsgTx // every transaction offered through SendRawTransaction, in the order in which the calls STARTED
 	SentErr     []error
 	RescanReqs  []RescanReq
 	NotifyRecv  [][]btcutil.Address
 	FilterCalls int
 	stopped     bool
+
+	// Kind is what BackEnd() answers: "btcd" (default), "neutrino" or
+	// "bitcoind" (the names the real clients of package chain use).
+	Kind string
+	// Mapper, when set, is the error mapping of a real client
+	// (chain.RPCClient / BitcoindClient / NeutrinoClient .MapRPCErr):
+	// MapRPCErr delegates to it and SendRawTransaction returns
+	// Mapper(scripted answer) the way the real clients' SendRawTransaction
+	// do, so that SendAnswers can hold RAW backend errors. SentErr keeps the
+	// raw answers, SentMapped what the wallet was given.
+	Mapper     func(error) error
+	SentMapped []error
+	// HoldSends makes every SendRawTransaction call stay "in progress" (after
+	// it has been logged) until every other wallet goroutine is parked or is
+	// itself held in SendRawTransaction: a hand-over that is started while
+	// another one has not returned yet is then observed deterministically
+	// (Calls[i].InFlight), whatever the scheduler does. Event based
+	// (goroutine states), no fixed delay.
+	HoldSends bool
+	// Calls is parallel to Sent.
+	Calls []SendCall
+	// HoldTimeouts counts held calls that were released by the safety
+	// deadline instead of by quiescence (expected 0).
+	HoldTimeouts int
+	inflight     map[int]bool
 }
+
+// SendCall describes one SendRawTransaction call.
+type SendCall struct {
+	// InFlight lists the indexes (into Sent) of the calls that had started
+	// and not yet returned when this call started (only tracked while
+	// HoldSends is set).
+	InFlight []int
+	// Held reports whether the call was held until quiescence.
+	Held bool
+}
+
+// NewBackendHook, when set, is applied to every backend made by NewBackend
+// (Sim.Attach creates its backend through NewBackend): a check that needs
+// another backend kind or a real error mapping for ALL backends of its Sims
+// sets it before Attach and clears it afterwards. Not for concurrent use with
+// different settings in one process.
+var NewBackendHook func(*Backend)
 
 // RescanReq records one Rescan call.
 type RescanReq struct {
@@ -51,19 +97,45 @@ type RescanReq struct {
 
 // NewBackend returns a backend over a chain model.
 func NewBackend(c *Chain) *Backend {
-	return &Backend{Chain: c, ntfns: make(chan interface{})}
+	b := &Backend{Chain: c, ntfns: make(chan interface{}), Kind: "btcd", inflight: map[int]bool{}}
+	if NewBackendHook != nil {
+		NewBackendHook(b)
+	}
+	return b
+}
+
+// NewBackendKind returns a backend whose BackEnd() answers kind.
+func NewBackendKind(c *Chain, kind string) *Backend {
+	b := NewBackend(c)
+	b.Kind = kind
+	return b
 }
 
 var _ chain.Interface = (*Backend)(nil)
 
-func (b *Backend) Start() error                      { return nil }
-func (b *Backend) Stop()                             { b.mu.Lock(); b.stopped = true; b.mu.Unlock() }
-func (b *Backend) WaitForShutdown()                  {}
-func (b *Backend) BackEnd() string                   { return "btcd" }
+func (b *Backend) Start() error     { return nil }
+func (b *Backend) Stop()            { b.mu.Lock(); b.stopped = true; b.mu.Unlock() }
+func (b *Backend) WaitForShutdown() {}
+func (b *Backend) BackEnd() string {
+	b.mu.Lock()
+	defer b.mu.Unlock()
+	if b.Kind == "" {
+		return "btcd"
+	}
+	return b.Kind
+}
 func (b *Backend) IsCurrent() bool                   { return true }
 func (b *Backend) NotifyBlocks() error               { return nil }
 func (b *Backend) Notifications() <-chan interface{} { return b.ntfns }
-func (b *Backend) MapRPCErr(err error) error         { return err }
+func (b *Backend) MapRPCErr(err error) error {
+	b.mu.Lock()
+	m := b.Mapper
+	b.mu.Unlock()
+	if m != nil && err != nil {
+		return m(err)
+	}
+	return err
+}
 
 func (b *Backend) GetBestBlock() (*chainhash.Hash, int32, error) {
 	b.mu.Lock()
@@ -143,19 +215,104 @@ func (b *Backend) FilterBlocks(req *chain.FilterBlocksRequest) (*chain.FilterBlo
 
 func (b *Backend) SendRawTransaction(tx *wire.MsgTx, _ bool) (*chainhash.Hash, error) {
 	b.mu.Lock()
-	defer b.mu.Unlock()
 	var err error
 	if len(b.SendAnswers) > 0 {
 		err = b.SendAnswers[0]
 		b.SendAnswers = b.SendAnswers[1:]
 	}
+	raw := err
+	if b.Mapper != nil && err != nil {
+		err = b.Mapper(err)
+	}
+	idx := len(b.Sent)
 	b.Sent = append(b.Sent, tx.Copy())
-	b.SentErr = append(b.SentErr, err)
+	b.SentErr = append(b.SentErr, raw)
+	b.SentMapped = append(b.SentMapped, err)
+	call := SendCall{Held: b.HoldSends}
+	for i := range b.inflight {
+		call.InFlight = append(call.InFlight, i)
+	}
+	sort.Ints(call.InFlight)
+	b.Calls = append(b.Calls, call)
+	if call.Held {
+		if b.inflight == nil {
+			b.inflight = map[int]bool{}
+		}
+		b.inflight[idx] = true
+	}
+	b.mu.Unlock()
+	if call.Held {
+		ok := waitOthersParked(10 * time.Second)
+		b.mu.Lock()
+		delete(b.inflight, idx)
+		if !ok {
+			b.HoldTimeouts++
+		}
+		b.mu.Unlock()
+	}
 	if err != nil {
 		return nil, err
 	}
 	h := tx.TxHash()
 	return &h, nil
+}
+
+// parkedStates are the goroutine wait states in which a goroutine cannot make
+// progress on its own.
+var parkedStates = map[string]bool{
+	"select": true, "chan receive": true, "chan send": true, "select (no cases)": true,
+	"semacquire": true, "sync.Mutex.Lock": true, "sync.RWMutex.RLock": true, "sync.RWMutex.Lock": true,
+	"sync.Cond.Wait": true, "sync.WaitGroup.Wait": true,
+	"chan receive (nil chan)": true, "chan send (nil chan)": true,
+}
+
+// othersParked reports whether, in one consistent snapshot of all goroutines,
+// every goroutine that runs wallet code is either parked or inside the fake
+// backend's SendRawTransaction (a held hand-over): then no further
+// SendRawTransaction call can start before a held one returns. Same technique
+// as Sim.Quiesce (goroutine states from runtime.Stack).
+func othersParked(buf []byte) bool {
+	n := runtime.Stack(buf, true)
+	for _, g := range strings.Split(string(buf[:n]), "\n\n") {
+		if !strings.Contains(g, "btcwallet/wallet.") {
+			continue
+		}
+		if strings.Contains(g, "wsim.(*Backend).SendRawTransaction") || strings.Contains(g, "wsim.(*Sim).Quiesce") {
+			continue
+		}
+		m := goroutineHdr.FindStringSubmatch(g)
+		state := ""
+		if m != nil {
+			state = strings.Split(m[1], ",")[0]
+		}
+		if !parkedStates[state] {
+			return false
+		}
+	}
+	return true
+}
+
+// waitOthersParked polls othersParked until two consecutive snapshots are
+// calm; false if the safety deadline passed first.
+func waitOthersParked(limit time.Duration) bool {
+	deadline := time.Now().Add(limit)
+	buf := make([]byte, 1<<20)
+	calm := 0
+	for {
+		if othersParked(buf) {
+			calm++
+		} else {
+			calm = 0
+		}
+		if calm >= 2 {
+			return true
+		}
+		if time.Now().After(deadline) {
+			return false
+		}
+		runtime.Gosched()
+		time.Sleep(50 * time.Microsecond)
+	}
 }
 
 func (b *Backend) Rescan(start *chainhash.Hash, addrs []btcutil.Address, ops map[wire.OutPoint]btcutil.Address) error {
